@@ -33,7 +33,8 @@ ASSUMPTIONS = [
     'small-scope hypothesis beyond the stated (nodes, branches, depth) bounds and alphabets',
 ]
 
-METADATA = {'id': '1', 'snt': 'x ; ( y'}
+METADATA = {'snt': 'x ; ( y', 'id': '1', 'Z': ''}     # not in alphabetical order: the order written is part of the layout
+HEADER = '# ::snt x ; ( y\n# ::id 1\n# ::Z\n'
 
 
 def _tiny_names():
@@ -100,18 +101,18 @@ def check(case, ctx):
             ctx.fail(f'configure(interpret(t)) is not t under {name}', expected=want, observed=t2.node,
                      repro=f'import penman; from penman.tree import Tree; t=Tree({t!r}); print(penman.configure(penman.interpret(t, M), model=M))  # M = model {name}')
             return
-        if dict(t2.metadata) != METADATA:
+        if dict(t2.metadata) != METADATA or list(t2.metadata) != list(METADATA):
             ctx.fail(f'metadata not kept under {name}', expected=METADATA, observed=dict(t2.metadata))
             return
         # text level
-        s = penman.format(Tree(t), indent=None)
+        s = HEADER + penman.format(Tree(t), indent=None)
         try:
             s2 = penman.encode(penman.decode(s, model=pm), model=pm, indent=None)
         except Exception as e:      # noqa: BLE001
             ctx.fail(f'encode(decode(s)) raised {type(e).__name__} under {name}', observed=str(e)[:200], expected=s)
             return
         ctx.transitions += 1
-        s_want = penman.format(Tree(want), indent=None)
+        s_want = HEADER + penman.format(Tree(want), indent=None)
         if s2 != s_want:
             ctx.fail(f'encode(decode(s)) is not the normal-form text of s under {name}', expected=s_want, observed=s2)
             return
